@@ -78,9 +78,9 @@ CHECKS = {
         note="seq < 6, <= 3 paths, limits 2..4; ids are the real random ones (masked in the canonical state)."),
     "C15": dict(
         engine="E1-xplore", category="model_checking", design_ref="§3 C15",
-        technique="explicit-state BFS to closure over arrival / burst / grant / abort histories of the real AntiAmplifier + Constraints + ArcSendWaker driven by a line-by-line mirror of the Burst call protocol",
+        technique="explicit-state BFS to closure over arrival / burst / grant / abort histories of the real AntiAmplifier + Constraints + ArcSendWaker driven by a line-by-line mirror of the Burst call protocol; plus controlled-scheduler exploration (all schedules, preemption bound 3 / unbounded) of a parked sender vs on_rcvd / grant / abort on the real AntiAmplifier with its pre-emption hooks",
         text="Until granted, total sent <= 3 x total received after every step, the credit reported by balance() never exceeds 3*rcvd - sent (no wrap), sending resumes after rcvd/grant, abort reports the path gone, a parked sender is woken.",
-        note="(a) the burst loop is mirrored line by line in the harness (a change inside burst.rs is seen only after the mirror is updated); (b) E3 monitor on the real stack: cumulative bytes from the server to the unvalidated client address <= 3x received, at every datagram, max_segments 1/4/16, every execution with <= 1 deviation."),
+        note="(a) the burst loop is mirrored line by line in the harness (a change inside burst.rs is seen only after the mirror is updated); (b) E3 monitor on the real stack: cumulative bytes from the server to the unvalidated client address <= 3x received, at every datagram, max_segments 1/4/16, every execution with <= 1 deviation; (c) part `wake`: the resume clause as a waiter/notifier protocol under every interleaving of the hook points inside on_rcvd / balance."),
     "C16": dict(
         engine="E2-sched", category="model_checking", design_ref="§3 C16",
         technique="controlled scheduler (CHESS style): stateless DFS over all interleavings of logical waiter/notifier threads at lock-region granularity plus sched_point hooks, preemption bound 3 (thorough: unbounded); deadlock with the condition true = lost wake-up",
@@ -93,17 +93,17 @@ CHECKS = {
         note="(c) close points are datagram indexes of the fault-free run of 2 (thorough 4) workloads; protocol-error and lost-path closes are covered only through C02's safety profile."),
     "C18": dict(
         engine="E0-enum", category="exploration", design_ref="§3 C18",
-        technique="exhaustive enumeration of transport-parameter blobs (each id x boundary/illegal values x role, all pairs of illegal choices, unknown/duplicate ids) against an independent RFC 9000 18.2/7.3/7.4 legality table, plus enumeration of cid-binding orders, idle-timeout pairs and 0-RTT remembered-parameter comparisons on the real Parameters state machine",
+        technique="exhaustive enumeration of transport-parameter blobs (each id x boundary/illegal values x role, all pairs of illegal choices, unknown/duplicate ids) against an independent RFC 9000 18.2/7.3/7.4 legality table, plus enumeration of cid-binding orders, idle-timeout pairs and 0-RTT remembered-parameter comparisons on the real Parameters state machine; plus enumeration of all 3^8 {smaller, equal, larger} shapes of new vs remembered limits through two real TLS handshakes (full, then resumed) between a rustls server session and the real ClientTlsSession",
         text="parse_from_bytes accepts exactly the legal sets and answers everything else with TRANSPORT_PARAMETER_ERROR, never a panic; readiness iff the declared cids equal the observed ones in both arrival orders with waiters woken; idle timeout = min non-zero; remembered parameters honoured only if nothing shrank; every accepted set is applied to the real consumers without panic.",
-        note="Boundary values + documented bounds +-1 per id; SHOULD-level rules (duplicates) are counted, not judged."),
+        note="Boundary values + documented bounds +-1 per id; SHOULD-level rules (duplicates) are counted, not judged. Part `resume` judges the decision taken at the call site (qconnection/src/tls.rs): a reduced limit => 0-RTT not reported as accepted."),
     "C19": dict(
         engine="E0-enum", category="fault_enumeration", design_ref="§3 C19",
         technique="exhaustive enumeration of datagram sizes x peer maxima x remaining-space values x queue contents on the real DatagramFlow writer/assembler/reader, bytes re-parsed by the real FrameReader, plus an E1 closure over send/assemble/receive histories",
         text="A datagram is refused iff no DATAGRAM frame carrying it fits the peer's maximum; every emitted frame is exactly one queued datagram, unchanged, FIFO, a length-less frame only last with padding before it; oversize received frames yield PROTOCOL_VIOLATION; after a connection error everything fails with it.",
-        note="(a) component level; (b) E3: k datagrams each way over the real stack, fault-free and every single-drop schedule — currently every accepted datagram is never transmitted (known finding), so the order/merge clauses are only exercised at component level."),
+        note="(a) component level; (b) E3: k datagrams each way over the real stack with equal and unequal max_datagram_frame_size on the two sides (1200/1200, 65535/100, 100/65535, 1200/0, 0/1200), fault-free and every single-drop schedule: admission follows the peer's maximum — currently every accepted datagram is never transmitted (known finding), so the order/merge clauses are only exercised at component level."),
     "C20": dict(
         engine="E3-netsim", category="fault_enumeration", design_ref="§3 C20",
-        technique="E3 enumeration of fate sequences (fault-free and every single-drop schedule) x exporter configurations {none, no-op, capturing, capturing+filter} over the whole stack built with the telemetry feature",
+        technique="E3 enumeration of fate sequences (fault-free and every schedule with one deviation — drop, duplicate, delay; thorough also header bit flip, truncation, late replay — at a datagram) x exporter configurations {none, no-op, capturing, capturing+filter} over the whole stack built with the telemetry feature",
         text="Every event captured along client and server connection lifetimes serialises to a JSON object with time/name/data, parses back to an equal event and re-serialises identically; logging never panics; the datagram trace signature and all application-visible results are identical across exporter configurations for the same fate sequence.",
         note="Only events the transport really emits in these workloads are covered (handshake, transfer, loss, close; no migration); the compile-time 'telemetry off' build is not compared."),
 }
